@@ -129,6 +129,19 @@ Fixpoint search_from (fuel : nat) (rx : regex) (pos : nat) (s : text) : sres :=
 Definition search_fuel (fuel : nat) (rx : regex) (s : text) : sres := search_from fuel rx O s.
 Definition search (rx : regex) (s : text) : sres := search_fuel (S (length s)) rx s.
 
+(* re.fullmatch: a match from the start that ends at the end of the text; an attempt that stops
+   earlier is a failure of the continuation, so the matcher backtracks into shorter repetitions
+   exactly as sre does *)
+Definition at_end : K := fun s g => match s with [] => Match s g | _ => NoMatch end.
+Definition fullmatch_here (fuel : nat) (rx : regex) (s : text) : mres :=
+  m fuel (rx_ic rx) (rx_re rx) s [] at_end.
+Definition fullmatch (rx : regex) (s : text) : sres :=
+  match fullmatch_here (S (length s)) rx s with
+  | Match _ g => SMatch O s g
+  | NoMatch => SNoMatch
+  | OutOfFuel => SOutOfFuel
+  end.
+
 (* t.group("name"): None when the group did not take part in the match.  A name that the pattern
    does not define is Python's IndexError (never the case for the regenerated patterns; explicit
    so that a table change cannot make a lookup silently absent). *)
